@@ -358,7 +358,12 @@ fn reflect_construct(
     let Guarded {
         value: result,
         guard: result_guard,
-    } = interp.call_function(target, JsValue::Object(new_obj.clone()), &call_args)?;
+    } = interp.call_function_with_new_target(
+        target,
+        JsValue::Object(new_obj.clone()),
+        &call_args,
+        new_target,
+    )?;
 
     // If constructor returned an object, use that; otherwise use the created object
     match result {
